@@ -92,7 +92,7 @@ Print Assumptions C04_truncation_ctl_identical_utf8.
 
 (* the two file control layouts of the source render ASCII for every record value *)
 Theorem C04_fctl_layouts_ascii : forall adv rc, asciib (render (fctl_layout adv) rc) = true.
-Proof. exact (fun adv rc => render_numeric_ascii _ rc (fctl_layouts_numeric adv)). Qed.
+Proof. exact fctl_render_ascii. Qed.
 Print Assumptions C04_fctl_layouts_ascii.
 
 (* the ASCII theorem of phase 2a is the special case *)
